@@ -24,7 +24,7 @@ namespace verif {
 const PropertyInfo kInfo = {
     "C22", 16, 8, 60,
     "tape -> (shard count from {0,1,2,3,19,20,21,39,40,41,255,256,300} or uniform 0..40, labels sequential / random with duplicates / "
-    "all equal / descending; threshold uniform 0..shards, arbitrary 0..255, or one of {0, shards, shards+1, 255}; target_replicas, "
+    "all equal / descending; declared total_shares = shard count, or (1/4) an unrelated value from {0,1,s-1,s+1,2s+1,255,any,s/2}; threshold uniform 0..shards, arbitrary 0..255, or one of {0, shards, shards+1, 255}; target_replicas, "
     "min_providers, candidate_sample each uniform 0..20, skewed (0..5 for the first two, 12..20 for the sample) or one of {21,40,41,255,256,1000,65535}; identity seed optional; the table's own "
     "id equal to or different from the self_id passed to compute_plan; chunk id random / 1 bit from self / 1 bit from the table id / next "
     "to a registered peer; one record per routing-table operation (<= 64): register a new peer in a chosen k-bucket (at most 16 distinct "
@@ -177,6 +177,14 @@ void run_case(Ctx& c) {
     protocol::Manifest manifest{};
     manifest.threshold = static_cast<std::uint8_t>(thr);
     manifest.total_shares = static_cast<std::uint8_t>(std::min<std::size_t>(s, 255));
+    // the declared share total is an independent field: a manifest may carry only part of the shares it declares (or
+    // declare fewer than it carries); the plan is about the shards the manifest carries
+    if ((t.h(14) & 6) == 6) {
+        const unsigned alt[] = {0u, 1u, static_cast<unsigned>(s > 0 ? s - 1 : 0), static_cast<unsigned>(std::min<std::size_t>(s + 1, 255)),
+                                static_cast<unsigned>(std::min<std::size_t>(2 * s + 1, 255)), 255u, static_cast<unsigned>(t.h(15)), static_cast<unsigned>(s / 2)};
+        manifest.total_shares = static_cast<std::uint8_t>(alt[(t.h(14) >> 3) % 8]);
+        if (manifest.total_shares != std::min<std::size_t>(s, 255)) c.label("declared_total_differs_from_carried_shards");
+    }
     manifest.shards.resize(s);
     std::map<unsigned, int> want_labels;
     bool dup_labels = false;
@@ -192,7 +200,7 @@ void run_case(Ctx& c) {
         prng.fill(manifest.shards[i].value.data(), 32);
         if (++want_labels[label] > 1) dup_labels = true;
     }
-    c.note("shards=%zu labels=%u thr=%u target=%u minp=%u sample=%u tself%sself", s, t.h(13) & 3, thr, static_cast<unsigned>(cfg.swarm_target_replicas),
+    c.note("shards=%zu total=%u labels=%u thr=%u target=%u minp=%u sample=%u tself%sself", s, static_cast<unsigned>(manifest.total_shares), t.h(13) & 3, thr, static_cast<unsigned>(cfg.swarm_target_replicas),
            static_cast<unsigned>(cfg.swarm_min_providers), static_cast<unsigned>(cfg.swarm_candidate_sample), self_registrable ? "!=" : "==");
 
     // ---- routing table history
